@@ -22,8 +22,9 @@ func HarnessC18Read(auto, kind int) {
 	got, err := drainReader(r, size)
 	if f < len(data) {
 		// a failure inside the data must surface
-		f12 := auto == 1 && f <= 193
-		vassertK("C18.read.surfaces", "F12", f12, err != nil && errors.Is(err, errVInjected))
+		// (F11, fixed: a failure right after a partial read inside the auto-detection window was swallowed by the single Read)
+		f11 := auto == 1 && f <= 193
+		vassertK("C18.read.surfaces", "F11", f11, err != nil && errors.Is(err, errVInjected))
 	} else {
 		// failing exactly at the end behaves like a failing reader too: either clean end or the injected error
 		vassert("C18.read.atend", err == nil || errors.Is(err, errVInjected))
